@@ -33,12 +33,16 @@ func makeHostNodes(r *hx.R, dir string) ([]hostNode, bool) {
 	}{{"c", unix.S_IFCHR}, {"b", unix.S_IFBLK}, {"p", unix.S_IFIFO}, {"c", unix.S_IFCHR}, {"b", unix.S_IFBLK}}
 	for i, k := range kinds {
 		p := filepath.Join(dir, fmt.Sprintf("n%d", i))
-		ma, mi := int64(1+r.Intn(250)), int64(r.Intn(250))
+		ma, mi := pickDevNum(r)
 		if k.t == "p" {
 			ma, mi = 0, 0
 		}
 		if err := unix.Mknod(p, k.mode|0o600, int(unix.Mkdev(uint32(ma), uint32(mi)))); err != nil {
 			mknodOK = false
+			continue
+		}
+		if !rdevIs(p, ma, mi) {
+			_ = os.Remove(p)
 			continue
 		}
 		nodes = append(nodes, hostNode{p, k.t, ma, mi})
@@ -50,6 +54,28 @@ func makeHostNodes(r *hx.R, dir string) ([]hostNode, bool) {
 	// a regular file (not a device node) is known to the oracle as absent
 	_ = os.WriteFile(filepath.Join(dir, "regular"), []byte("x"), 0o644)
 	return nodes, mknodOK
+}
+
+// pickDevNum: device numbers over the whole range Linux stores (12-bit major, 20-bit minor), with the boundaries of
+// the 8-bit/16-bit encodings likely.
+func pickDevNum(r *hx.R) (int64, int64) {
+	if r.Chance(0.5) {
+		return int64(1 + r.Intn(250)), int64(r.Intn(250))
+	}
+	ma := hx.Pick(r, []int64{1, 255, 256, 259, 511, 4095, int64(1 + r.Intn(4095))})
+	mi := hx.Pick(r, []int64{0, 255, 256, 4095, 4096, 65535, 65536, 70000, 1048575, int64(r.Intn(1 << 20))})
+	return ma, mi
+}
+
+// rdevIs: the node really carries these numbers (compared on the raw st_rdev encoding, not through the decoding helpers
+// the implementation uses).
+func rdevIs(path string, ma, mi int64) bool {
+	var st unix.Stat_t
+	if unix.Lstat(path, &st) != nil {
+		return false
+	}
+	want := (uint64(ma)&0xfff)<<8 | (uint64(ma)&^0xfff)<<32 | uint64(mi)&0xff | (uint64(mi)&^0xff)<<12
+	return uint64(st.Rdev) == want
 }
 
 func hostTerm(nodes []hostNode) string {
@@ -79,6 +105,14 @@ func randOCI(r *hx.R, hosts []hostNode, many bool) *oci.Spec {
 			}
 			used[k] = true
 			s.Process.Env = append(s.Process.Env, k+"="+hx.Pick(r, []string{"1", "", "a=b", "/usr/bin"}))
+		}
+		if r.Chance(0.3) {
+			// entries nobody validated: no '=', empty, only '='
+			for i, n := 0, 1+r.Intn(2); i < n; i++ {
+				x := hx.Pick(r, []string{"TERM", "", "=", "=x", hx.Pick(r, envNames03)})
+				pos := r.Intn(len(s.Process.Env) + 1)
+				s.Process.Env = append(s.Process.Env[:pos:pos], append([]string{x}, s.Process.Env[pos:]...)...)
+			}
 		}
 		if r.Chance(0.5) {
 			s.Process.User.UID = 1000
